@@ -6,6 +6,7 @@ import Logrange.Proofs.C13KV
 import Logrange.Proofs.Format
 import Logrange.Model.Where
 import Logrange.Model.Nesting
+import Logrange.Model.ShowPartitions
 /-!
 # C13 — No request content can crash the server-side decoders and evaluators
 
@@ -25,8 +26,11 @@ packet — fact `wpInitValidates`; the decoder theorems hold for either value of
   `LogEvent.Marshal` in `partition.iwrapper` — no request path hands client bytes to it. `record_decode_total_partial` and
   `cex_record_varint` describe it: a remark (an on-disk corruption concern of C07), not a finding of C13;
 * LQL nesting: the guard of commit 8131efe counts on the lexer's tokens since 6345cd4 (facts `lqlGuardKind = 2`, `lqlMaxNesting`):
-  `answers_every_request`, and `C13_full` is a theorem (`C13_holds`); `cex_guard_hole` remains as the statement about the
-  byte-scan branch (repaired finding F25b) and the unguarded branch (F25). No open finding.
+  `answers_every_request`; `cex_guard_hole` remains as the statement about the byte-scan branch (repaired finding F25b) and the
+  unguarded branch (F25);
+* admin statements: `SHOW PARTITIONS` with a negative OFFSET or LIMIT panics in `partition.Service.Partitions` — open finding
+  **F55** (`cex_show_partitions_negative`, `show_partitions_total_partial`); `C13_full` holds once it is refused
+  (`C13_holds_with_show_guard`).
 -/
 namespace Logrange.Props.C13
 open Go Logrange Logrange.Wire Logrange.Outcome
@@ -388,6 +392,49 @@ theorem cex_escapeJson_fffd_before_fix (fuel i start : Nat) (e : Bytes) (hi : i 
     simpa [Go.index, Go.sliceFrom, Outcome.bind, EscapeJson.decodeRune, EscapeJson.seqSize, EscapeJson.loBound,
       EscapeJson.hiBound, EscapeJson.runeError] using ih
 
+/-! ## admin statements: SHOW PARTITIONS paging (finding F55) -/
+
+open Logrange.ShowPartitions in
+/-- **`SHOW PARTITIONS … OFFSET o LIMIT l` answers for every non-negative OFFSET and LIMIT** (absent ones take their
+defaults), any number of partitions, and whichever way `/repo` treats negative arguments: the paging arithmetic of
+`partition.Service.Partitions` indexes neither `parts` nor the result page outside their bounds. -/
+theorem show_partitions_total_partial (n : Nat) (hn : (n : Int) < 9223372036854775808) (offset limit : Option Int)
+    (h : negativeArg offset limit = false) : (showPartitionsNow n offset limit).isPanic = false := by
+  unfold showPartitionsNow showPartitions
+  simp only []
+  unfold negativeArg at h
+  simp only [Bool.or_eq_false_iff, decide_eq_false_iff_not] at h
+  split
+  · rfl
+  · exact partitions_nonneg n hn _ _ (by omega) (by omega)
+
+/-- **Counterexample (open finding F55)**, evaluated by the kernel: `show partitions offset -1` (no partition needed:
+`parts[-1]`, index out of range) and, with at least one partition, `show partitions limit -1` (`make([]…, -1)`: makeslice: len
+out of range) and `offset -9223372036854775808` (the subtraction wraps); with a guard the same statements get an error. With no
+partition `limit -1` is answered (early return). -/
+theorem cex_show_partitions_negative :
+    (ShowPartitions.showPartitions false 0 (some (-1)) none).isPanic = true ∧
+    (ShowPartitions.showPartitions false 1 none (some (-1))).isPanic = true ∧
+    (ShowPartitions.showPartitions false 1 (some (-9223372036854775808)) none).isPanic = true ∧
+    ShowPartitions.showPartitions false 0 none (some (-1)) = .ok [] ∧
+    ShowPartitions.showPartitions true 1 none (some (-1)) = .err ∧
+    ShowPartitions.showPartitions false 3 (some 1) (some 5) = .ok [1, 2] := by decide
+
+/-- **With the guard, every SHOW PARTITIONS statement is answered** — any OFFSET and LIMIT the parser can deliver. -/
+theorem show_partitions_total_guarded (hg : Generated.C13.showPartitionsRejectsNegative = true) (n : Nat)
+    (hn : (n : Int) < 9223372036854775808) (offset limit : Option Int) :
+    (ShowPartitions.showPartitionsNow n offset limit).isPanic = false := by
+  cases hneg : ShowPartitions.negativeArg offset limit with
+  | false => exact show_partitions_total_partial n hn offset limit hneg
+  | true =>
+    unfold ShowPartitions.showPartitionsNow ShowPartitions.showPartitions
+    simp only []
+    unfold ShowPartitions.negativeArg at hneg
+    simp only [Bool.or_eq_true, decide_eq_true_eq] at hneg
+    rw [hg]
+    simp only [true_and, hneg, if_true]
+    rfl
+
 /-! ## the full statement -/
 
 /-- **C13 at full strength**: every request body is answered with a result or an error by the decoders, within a bounded number
@@ -402,22 +449,25 @@ def C13_full : Prop :=
   (∀ split (trim : Bytes → Bytes) unq s f, (∀ v, (trim v).length ≤ v.length) →
       WireFields.fromKV split trim unq s = some f → WireFields.WF f) ∧
   (∀ lower fstr, (Format.parse lower fstr).isPanic = false) ∧
-  (∃ budget, ∀ s, (Nesting.parseNow budget s).isPanic = false)
+  (∃ budget, ∀ s, (Nesting.parseNow budget s).isPanic = false) ∧
+  (∀ (n : Nat) offset limit, (n : Int) < 9223372036854775808 → (ShowPartitions.showPartitionsNow n offset limit).isPanic = false)
 
-/-- **Where C13 stands**: every clause but the last is proved above, and the last holds as soon as the nesting guard counts on
-the parser's own tokens (`lqlGuardKind = 2`, `proposed-fixes/F25b.diff`). With the byte-scan guard of commit 8131efe
-(`lqlGuardKind = 1`) it did not: `cex_guard_hole`, repaired finding F25b. -/
-theorem C13_holds_with_token_guard (hk : Generated.C13.lqlGuardKind = 2) : C13_full := by
+/-- **Where C13 stands**: every clause but the last two is proved above unconditionally; the nesting clause through the token
+guard (`lqlGuardKind = 2`, in place: `nesting_guard_in_place`); the last one holds as soon as SHOW PARTITIONS refuses a negative
+OFFSET / LIMIT (`showPartitionsRejectsNegative`, `proposed-fixes/F55.diff`). On the current tree that fact is `false`:
+`cex_show_partitions_negative`, open finding F55. -/
+theorem C13_holds_with_guards (hk : Generated.C13.lqlGuardKind = 2) (hg : Generated.C13.showPartitionsRejectsNegative = true) :
+    C13_full := by
   refine ⟨?_, fun s => (pos_total s).2, fun s => ⟨(escapeJson_terminates s).2, (escapeJson_terminates s).1⟩, ?_,
     fun lower fstr => (format_total lower fstr).1, ⟨Generated.C13.lqlMaxNesting, fun s =>
-      answers_every_request_guarded hk _ (Nat.le_refl _) s⟩⟩
+      answers_every_request_guarded hk _ (Nat.le_refl _) s⟩, fun n o l hn => show_partitions_total_guarded hg n hn o l⟩
   · intro kv buf hb
     exact ⟨(decode_total kv buf hb).2.2.1, (wpDrain_terminates kv default [] 0).2.2 buf, (decode_total kv buf hb).2.2.2.1⟩
   · intro split trim unq s f ht hs
     exact fromKV_WF split trim unq ht s f hs
 
-/-- **Every LQL text is answered** on the tree as it is now: with a stack of 1000 frames (or more) no text exhausts it — the
-positive statement that replaces the counterexamples of F25 and F25b. -/
+/-- **Every LQL text is answered by the parser** on the tree as it is now: with a stack of 1000 frames (or more) no text
+exhausts it — the positive statement that replaces the counterexamples of F25 and F25b. -/
 theorem answers_every_request (budget : Nat) (hb : 1000 ≤ budget) (s : Bytes) : (Nesting.parseNow budget s).isPanic = false :=
   answers_every_request_guarded nesting_guard_in_place.2.2 budget (by rw [nesting_guard_in_place.2.1]; exact hb) s
 
@@ -426,7 +476,8 @@ set_option maxRecDepth 100000 in
 example : Nesting.parseG Generated.C13.lqlGuardKind 3 3 holeText = .err ∧
     Nesting.parseG Generated.C13.lqlGuardKind 3 3 [40, 40, 40, 97, 61, 49, 41, 41, 41] = .ok 3 := by decide
 
-/-- **C13 holds at full strength** on the tree as it is now (no open finding). -/
-theorem C13_holds : C13_full := C13_holds_with_token_guard nesting_guard_in_place.2.2
+/-- on the current tree only the SHOW PARTITIONS guard is missing -/
+theorem C13_holds_with_show_guard (hg : Generated.C13.showPartitionsRejectsNegative = true) : C13_full :=
+  C13_holds_with_guards nesting_guard_in_place.2.2 hg
 
 end Logrange.Props.C13
